@@ -307,7 +307,7 @@ class Ctx:
             for ax in AXIOMS[t.decl().name()](t):
                 self.pc.append(ax)
                 self.solver.add(ax)
-                self.scan(ax, 0)
+                self.scan(ax, 0, unfold=False)
         self.scan_pos = len(self.pc)
 
     # ---- engine-side instantiation of quantified hypotheses (DESIGN.md 2.5) ---------------------------
@@ -318,7 +318,7 @@ class Ctx:
     MAXGEN = 6
     MAXINST = 6000
 
-    def scan(self, f, gen):
+    def scan(self, f, gen, unfold=True):
         if not isinstance(f, z3.ExprRef):
             return
         stack = [f]
@@ -340,7 +340,8 @@ class Ctx:
                 elif not z3.is_array(t):
                     self.add_read(a0, t.arg(1), gen)
             elif k == z3.Z3_OP_UNINTERPRETED and n > 0 and t.decl().name() in AXIOMS:
-                self.ax_pending.append(t)
+                if unfold:
+                    self.ax_pending.append(t)       # recursive spec functions are unfolded once (fuel 1)
             for i in range(n):
                 stack.append(t.arg(i))
 
@@ -754,7 +755,16 @@ def _isdigits_axioms(t):
     return out
 
 
-AXIOMS = {'IsDigits': _isdigits_axioms, 'Find': _find_axioms, 'RFind': _find_axioms, 'ReFind': _refind_axioms, 'ReMatch': _rematch_axioms}
+def _rowseg_axioms(t):
+    """RowSeg(cell, i, a, b): '' when b < a; otherwise RowSeg(.., b-1) ++ cell[i][b]; length b-a+1"""
+    cell, i, a, b = t.arg(0), t.arg(1), t.arg(2), t.arg(3)
+    prev = t.decl()(cell, i, a, b - 1)
+    return [z3.Implies(b < a, t == z3.StringVal('')),
+            z3.Implies(b >= a, t == z3.Concat(prev, z3.Select(z3.Select(cell, i), b))),
+            z3.Length(t) >= 0]
+
+
+AXIOMS = {'RowSeg': _rowseg_axioms, 'IsDigits': _isdigits_axioms, 'Find': _find_axioms, 'RFind': _find_axioms, 'ReFind': _refind_axioms, 'ReMatch': _rematch_axioms}
 
 
 def collect_apps(f, names, out, seen):
